@@ -574,6 +574,13 @@ pub fn check(c: &Case, _known: &Known) -> Outcome {
         return out;
     }
     if differs {
+        // rule out a defect of SQLite's planner: both statements again with its optional
+        // optimisations switched off (see model/exec.rs)
+        if let (Ok(u1), Ok(u2)) = (exec::run_unoptimized(&c.base.db, &sql1), exec::run_unoptimized(&c.base.db, &sql2)) {
+            if u1.cols.len() == u2.cols.len() && rows_key(&u1.cols, &u1.rows) == rows_key(&u2.cols, &u2.rows) {
+                return Outcome::skip("engine_planner_defect").class("engine_planner_defect");
+            }
+        }
         out.verdict = Verdict::Fail(
             "a refactoring PRQL defines as equivalent changes the result".into(),
             json!({"base": src1, "rewritten": src2, "rewrites": c.rewrites, "sql_base": sql1, "sql_rewritten": sql2,
